@@ -39,6 +39,7 @@ func checkC13(r *core.Run) {
 	c13Nil(r, p)
 	// a transaction mixing segwit-v0 and taproot inputs: each digest keeps its own cached sub-hashes (shared with C02)
 	c02CacheOwners(r, p, "R-C13-dispatch")
+	c09WriterRanges(r, p, "R-C13-guards") // the serialisation written to the file and signed over uses these CompactSize writers
 }
 
 func c13w(p *core.Program, n string) *ssa.Function { return p.Func("wallet." + n) }
